@@ -210,7 +210,9 @@ struct Law {
 };
 inline std::vector<Law>& laws() { static std::vector<Law> l; return l; }
 struct LawReg {
-  LawReg(const char* n, void (*fn)(Ctx&), Kind k, long q, long t, int len, const char* nt, int hang = 30, bool hv = false) {
+  // a case that burns `hang` CPU-seconds (normal cases take micro- to milliseconds) never returned what the property says it
+  // returns: a violation unless the law says that termination is decided elsewhere (hv = false, e.g. C10 Lb..Lf next to La_termination)
+  LawReg(const char* n, void (*fn)(Ctx&), Kind k, long q, long t, int len, const char* nt, int hang = 30, bool hv = true) {
     laws().push_back(Law{n, fn, k, q, t, len, nt, hang, hv});
   }
 };
@@ -453,7 +455,10 @@ inline int harnessMain(int argc, char** argv, const char* propertyId) {
     if (!law) { fprintf(stderr, "unknown law %s\n", cf.law.c_str()); return 4; }
     G().law = law;
     if (mode == "shrink") {
-      std::vector<uint64_t> m = shrinkForked(*law, cf.choices, law->hangSeconds, 800);
+      // while minimising, a candidate counts as hanging after min(hangSeconds, VF_SHRINK_HANG) CPU-seconds (the driver confirms the
+      // result with the full budget and falls back on the unminimised dump when the minimised case then passes)
+      int shrinkHang = law->hangSeconds; if (const char* e = getenv("VF_SHRINK_HANG")) shrinkHang = std::max(1, std::min(shrinkHang, atoi(e)));
+      std::vector<uint64_t> m = shrinkForked(*law, cf.choices, shrinkHang, 800);
       std::ofstream o(out); o << caseText(law->name, m, m.size(), "", "process died (signal / sanitizer report / hang) while running this case (minimised in fork mode)");
       return 0;
     }
